@@ -28,8 +28,16 @@ def gen_episode(rng, long=False):
             g.end()
         elif k < 0.75:
             g.eject()
-        elif k < 0.8:
+        elif k < 0.78:
             g.probe()
+        elif k < 0.8 and g.names:
+            # an active probe in flight while the backend is ejected: its late 200 must not
+            # bring the backend back inside the window
+            name = rng.choice(g.names)
+            g.probe_begin(name)
+            if rng.random() < 0.7:
+                g.eject(name=name)
+            g.probe_end(name, ok=rng.random() < 0.85)
         elif k < 0.85:
             g.remove()
         elif k < 0.9:
